@@ -10,7 +10,9 @@ TRUSTED_BASE = [
     'hand-written model lean/PysphVerif/Model/Stepper.lean of the class generated from integrator_cython.mako / '
     'integrator_cython_helper.py and of Integrator.compute_accelerations/update_domain, and '
     'Model/StepperHist.lean of the attributes the public setters change between steps (set_nnps, '
-    'set_post_stage_callback, set_fixed_h), tied by tracer steppers, tracer equations, logging NNPS subclasses '
+    'set_post_stage_callback, set_fixed_h), and Model/StepperSession.lean of the process (get_timestep_code reads '
+    'the object\'s own one_timestep text; built extension modules found by a digest of the whole generated text), '
+    'tied by tracer steppers, tracer equations, logging NNPS subclasses '
     'and delegating evaluator proxies through the real SPHCompiler (harness/c04.py)',
     'the tracers themselves (generated stepper/equation source logging into one shared constant array; '
     'Python subclasses of LinkedListNNPS/BoxSortNNPS that record which object is updated, given to the public '
@@ -27,6 +29,9 @@ ASSUMPTIONS = [
     'update_domain/do_post_stage with constant arguments, stage_dt arithmetic over t, dt and literals, '
     'constant-bound for loops); the translator rejects anything else',
     'numerical bodies of shipped steppers: differential execution (bit-exact) on sampled inputs only',
+    'sessions: the digest under which compyle finds a built extension module (md5 of the generated text) does not '
+    'identify two different texts (hypothesis of session_compiles_own_text; keying_by_class_name_is_unsound shows '
+    'that a key which does is wrong)',
 ]
 READY = True
 DESIGN_REF = '6/C04'
@@ -41,7 +46,12 @@ LEVEL_TEXT = ("Lean 4 theorems for every program of the one_timestep language, e
               "one integrator object (steps interleaved with set_nnps / set_post_stage_callback / set_fixed_h / particles "
               "added): history_refines_literal (= literal reading with the NNPS and callback of the most recent setter "
               "call), hist_attributes_are_last_set, refresh_targets_last_set_nnps (a step refreshes / re-creates ghosts "
-              "through no other NNPS object and calls no other callback), fixed_h_is_irrelevant_to_steps; and by `decide` over the table "
+              "through no other NNPS object and calls no other callback), fixed_h_is_irrelevant_to_steps; for every SESSION "
+              "(any classes compiled one after the other in one process, equal __module__/__qualname__ included, any "
+              "set of modules built earlier): session_compiles_own_text (every class gets the module rendered from its "
+              "own / inherited one_timestep text), session_member_refines_literal (hence = literal execution of its own "
+              "text over any history), session_independent_of_earlier_members, keying_by_class_name_is_unsound (a body "
+              "remembered per (module, qualname) violates it); and by `decide` over the table "
               "regenerated from the source shipped_programs_well_staged / shipped_programs_end_at_t_plus_dt. "
               "The programs are re-translated from /repo on every run; the model of the generated class is tied to the "
               "real pipeline (mako template -> compyle -> Cython -> g++) by tracer steppers/equations whose complete "
@@ -52,6 +62,12 @@ LEVEL_TEXT = ("Lean 4 theorems for every program of the one_timestep language, e
               "multi-line signature, ...), one_timestep texts with docstrings/comments/pass/multi-line calls, histories "
               "with a second set_nnps (new LinkedList / cached / BoxSort object, identity of the refreshed object logged), "
               "callback replaced or removed, set_fixed_h toggled and particles added between steps, "
+              "SESSIONS in which 3-4 different integrator classes that share __module__ and __qualname__ (branches of "
+              "one factory function / class statement executed again / type(name, bases, ns)), with equally named but "
+              "different stepper classes, generated one_timestep texts or one_timestep inherited from different shipped "
+              "integrators, are compiled and run one after the other in ONE process and some of them once more at the "
+              "end, each element judged against the literal reading of its own class (the model of the process decides "
+              "which body the element's model run uses), "
               "each configuration in the option matrix domain {periodic, mirror (reflecting walls), "
               "none} x set_fixed_h {False, True} on one compiled module; the property's own predicate is evaluated by "
               "letting CPython execute the integrator's one_timestep literally, and after every "
